@@ -31,7 +31,7 @@ def harness_pairs(chk, progs, tag):
 
 def run(chk, replay=None):
     quick = chk.tier == "quick"
-    n_graph = 250 if quick else 8000
+    n_graph = 250 if quick else 6500
     n_block = 80 if quick else 2500
     for flavour, cj in (("ne", "!="), ("gt", ">")):
         cfg = dict(gen_progs.BASE_CFG, count_jmp=cj)
@@ -57,15 +57,17 @@ def run(chk, replay=None):
                 chains = chains[(0 if flavour == "ne" else 1)::2]
             chk.add("chain_programs", len(chains))
             # structured bases (loops, nests, chains, loops in chains, ...) with one extra jump from every position to
-            # every position (quick: a fixed eighth of them per flavour, different eighths)
+            # every position (quick: a fixed eighth of them per flavour, different eighths; thorough: each in one flavour)
             edges = gen_progs.edge_programs(cfg, start_id=300001)
             if quick:
                 edges = edges[(0 if flavour == "ne" else 4)::8]
+            else:
+                edges = edges[(0 if flavour == "ne" else 1)::2]      # (every program in one of the two flavours)
             chk.add("edge_programs", len(edges))
             pairs = harness_pairs(chk, progs + blocks + nests + chains + edges, flavour)
         chk.add("programs", len(pairs))
         chk.add("disagreements_checked", sum(1 for p in pairs if p.get("changed")))
-        cov = lib.product_check(chk, "ProductDecomp", tcfg, pairs, "c07_" + flavour, timeout=900 if quick else 3000)
+        cov = lib.product_check(chk, "ProductDecomp", tcfg, pairs, "c07_" + flavour, timeout=900 if quick else 6000)
         for k, v in cov.items():
             chk.add(k, v)
         for p in [p for p in pairs if p.get("changed")][:2]:
